@@ -118,11 +118,71 @@ pub fn gen_daub(rng: &mut Rng, tier: &Tier) -> Vec<Case> {
     cases
 }
 
+/// C19: op programs over the windowed filters instantiated at the instrumented sample type
+pub fn gen_ownership(rng: &mut Rng, tier: &Tier) -> Vec<Case> {
+    let mut cases = Vec::new();
+    let kinds = ["median", "mean", "max", "min", "bounds", "convolve", "delay", "cache"];
+    for kind in kinds {
+        for _ in 0..tier.n(60, 800) {
+            let n = rng.range(1, 6) as usize;
+            let mk = |rng: &mut Rng, kind: &str| -> String {
+                match kind {
+                    "convolve" => {
+                        let c: Vec<String> = (0..n).map(|_| rng.range(-3, 3).to_string()).collect();
+                        format!("convolve c={} T=tracked", c.join(","))
+                    }
+                    "delay" => format!("delay N={} T=tracked", rng.range(0, 5)),
+                    k => format!("{} N={} T=tracked", k, n),
+                }
+            };
+            let first = if kind == "cache" {
+                let inner = *rng.pick(&["median", "mean", "max", "bounds", "delay"]);
+                format!("cache inner={}", mk(rng, inner))
+            } else {
+                mk(rng, kind)
+            };
+            let mut c = vec![format!("new 1 {}", first), "live".to_string()];
+            let mut ids: Vec<u32> = vec![1];
+            let mut next = 2u32;
+            for _ in 0..rng.range(3, if tier.thorough { 40 } else { 25 }) {
+                let id = *rng.pick(&ids);
+                match rng.below(12) {
+                    0 => {
+                        c.push(format!("clone {} {}", id, next));
+                        ids.push(next);
+                        next += 1;
+                    }
+                    1 => {
+                        c.push(format!("gutsrt {} {}", id, next));
+                        ids.push(next);
+                        next += 1;
+                    }
+                    2 => c.push(format!("gutsrt {} {}", id, id)), // in place: extract and re-inject
+                    3 => c.push(format!("reset {}", id)),
+                    4 if ids.len() > 1 => {
+                        c.push(format!("drop {}", id));
+                        ids.retain(|x| *x != id);
+                    }
+                    _ => c.push(format!("f {} {}", id, rng.range(-4, 4))),
+                }
+                c.push("live".into());
+            }
+            for id in ids {
+                c.push(format!("drop {}", id));
+            }
+            c.push("live".into());
+            cases.push(c);
+        }
+    }
+    cases
+}
+
 pub fn generate(prop: &str, rng: &mut Rng, tier: &Tier) -> Vec<Case> {
     match prop {
         "C18" => gen_hampel(rng, tier),
         "C05p" => gen_sg(rng, tier),
         "C07" => gen_daub(rng, tier),
+        "C19" => gen_ownership(rng, tier),
         p => panic!("harness: no generator for property {}", p),
     }
 }
